@@ -62,7 +62,8 @@ struct Built {
 
 fn build_program(rng: &mut Rng, type_idx: &[usize]) -> Built {
     let mut s = String::new();
-    s.push_str("trait Tr1 {\n    fn m(Self, int32) -> int32;\n    fn n(Self) -> string;\n}\ntrait Tr2 {\n    fn m(Self, int32) -> int32;\n}\n");
+    // `zm` and `m_`: method names that end / start with another method's name, declared around it
+    s.push_str("trait Tr1 {\n    fn zm(Self, int32) -> int32;\n    fn m(Self, int32) -> int32;\n    fn m_(Self, int32) -> int32;\n    fn n(Self) -> string;\n}\ntrait Tr2 {\n    fn m(Self, int32) -> int32;\n}\n");
     s.push_str("struct St { v: int32 }\nenum En { A(int32), B, C(int32, bool) }\nstruct Gn[T] { it: T }\nstruct Nest { inner: St, tag: int32 }\n");
     let mut main = String::new();
     let mut expected = Vec::new();
@@ -77,14 +78,22 @@ fn build_program(rng: &mut Rng, type_idx: &[usize]) -> Built {
         let t = &TYPES[ti];
         let code = (ti as i64 + 1) * 1000;
         let code2 = (ti as i64 + 1) * 1000 + 500_000;
-        s.push_str(&format!(
-            "impl Tr1 for {ty} {{\n    fn m(self: {ty}, a: int32) -> int32 {{ {code} + a + {dg} }}\n    fn n(self: {ty}) -> string {{ \"{nm}\" }}\n}}\nimpl Tr2 for {ty} {{\n    fn m(self: {ty}, a: int32) -> int32 {{ {code2} + a + {dg} }}\n}}\n",
+        let impl1 = format!(
+            "impl Tr1 for {ty} {{\n    fn zm(self: {ty}, a: int32) -> int32 {{ 0 - 777 }}\n    fn m(self: {ty}, a: int32) -> int32 {{ {code} + a + {dg} }}\n    fn m_(self: {ty}, a: int32) -> int32 {{ 0 - 888 }}\n    fn n(self: {ty}) -> string {{ \"{nm}\" }}\n}}\n",
             ty = t.ty,
             code = code,
-            code2 = code2,
             dg = t.digest,
             nm = t.name
-        ));
+        );
+        let impl2 = format!("impl Tr2 for {ty} {{\n    fn m(self: {ty}, a: int32) -> int32 {{ {code2} + a + {dg} }}\n}}\n", ty = t.ty, code2 = code2, dg = t.digest);
+        // the second trait's name extends the first one's (Tr1 / Tr1x); its impl comes first for every other type
+        if k % 2 == 0 {
+            s.push_str(&impl2);
+            s.push_str(&impl1);
+        } else {
+            s.push_str(&impl1);
+            s.push_str(&impl2);
+        }
         if t.has_inherent {
             s.push_str(&format!("impl {ty} {{\n    fn im(self: {ty}, a: int32) -> int32 {{ {c} + a + {dg} }}\n}}\n", ty = t.ty, c = code + 100_000, dg = t.digest));
         }
@@ -155,7 +164,7 @@ fn build_program(rng: &mut Rng, type_idx: &[usize]) -> Built {
     s.push_str("fn main() -> unit {\n");
     s.push_str(&main);
     s.push_str("    ()\n}\n");
-    Built { src: s, expected, cells }
+    Built { src: s.replace("Tr2", "Tr1x"), expected, cells }
 }
 
 struct Negative {
